@@ -26,6 +26,7 @@ CLAIMS = {
     'C19': ('other', 'A contract on the type parameter: an archetype scalar offering only the documented operations (explicit integral constructor, four arithmetic operators with compound forms, unary minus, six comparisons, no implicit conversions) instantiates every core template and generic interpolate, calling every public operation; decided by the C++ type checker of clang and gcc. Type checking, not CBMC, and labelled so.', '4 C19'),
     'C01': ('proof', 'The induction that makes the generated functions the Cox-de Boor B-splines, piece by piece: (base) the constructor establishes the class invariant "grid = knots without duplicates" at the arbitrary knot index (assumed contract of std::unique) and refuses decreasing knots; the order-0 functions are the indicators of [t_l, t_l+1) (interval-free for zero-width spans); (step) applyRecursionRelation<k>, k = 2, 3, returns exactly [t_i+p > t_i] (x - t_i)/(t_i+p - t_i) s_i + [t_i+p+1 > t_i+1] (t_i+p+1 - x)/(t_i+p+1 - t_i+1) s_i+1 on every interval, proved from the contracts of the real operator expression tree; (wiring) generateBSplines<0>, <1>: refusal of too few knots, count m-p-1, every step called with valid neighbouring lower-order splines. NOT proved: that element l of generateBSplines<p>, p >= 1, is the step of elements l, l+1 (quantified invariant over a vector of splines, undecided by cvc5/z3 unboundedly and in a 5-element instance), orders >= 2 of the wiring, the corollaries (partition of unity, smoothness: classical consequences of the recursion).', '4 C01'),
     'C09': ('proof', 'Not separate contracts but the safety obligations of EVERY block of every other check: array bounds, the STL preconditions asserted by the shim (vector[] / front / back / iterator range, optional dereference, shared_ptr dereference), unsigned-to-signed conversions, signed overflow, division by zero, plus "throws for every index outside the view" for the checked accessors over all 2^64 index values. A read of uninitialised coefficients makes a whole-result postcondition fail. Dangling references, allocation failure, Eigen/boost code integrate() and the bundled Eigen/Armadillo adapters are not covered; linearCombination only in its bounded stand-in; interpolate over an abstract solver, including that every write to the linear system lies inside it.', '4 C09'),
+    'C12': ('other', 'Two parts, labelled separately in the evidence. PROVED for every number of abscissae (loop contracts, abstract solver): interpolate<1..3> validates its arguments exactly, writes every matrix and right-hand-side entry inside the system, returns the solver\'s solution block by block as a valid spline on exactly the given support; the default boundary set is the documented one. BOUNDED (never counted as proved): with a ghost copy of the assembled system and a solver assumed to return an exact solution of it, the returned spline takes every ordinate (from either side), has continuous derivatives up to order-1 at the interior abscissa and meets every boundary condition (node, derivative order 1..order, value arbitrary) -- for 2 and 3 abscissae on grids of at most 3 points (windows included), orders 1..2 quick, 3 thorough, multiplication treated as an arbitrary function. Not covered: more than 3 abscissae for the conditions, the bundled floating-point solvers.', '4 C12 / W11'),
     'C13x': None,
 }
 CLAIMS.pop('C13x')
@@ -40,7 +41,6 @@ NA = {
 }
 
 NA.update({
-    'C12': 'only the part of the statement that is interpolate()\'s own bookkeeping is under contract (contracts/interp.ctr, checked under C11/C10/C09: validation, every write to the system inside its bounds, the result is the solver\'s solution block by block on the given support, the default boundary set): WHAT the assembled rows say -- value, continuity and boundary equations in midpoint coordinates -- is not specified, because the solver is abstract and a ghost matrix with a row-wise specification was not built; the sentence about the bundled dense solver is floating point + Eigen/Armadillo',
     'C20': 'numerical outcomes of the Eigen-based example programs (boundary values attained, eigenvalue shifts, n+1/2, -1/n^2) are outside any contract within reach; the opaque-Eigen extraction of the examples was not built',
 })
 PENDING = 'not claimed yet: the contracts for this property are not built in this revision'
